@@ -23,6 +23,7 @@ from typing import Any
 from optuna.storages.journal import JournalFileBackend, JournalFileOpenLock, JournalFileSymlinkLock
 
 from verif import core, sched, sysfi
+from verif.props import c07_lock
 
 RULE = (
     "(a) byte strings built from 0-8 JSON records, optional torn tail / garbage line / missing final newline, "
@@ -462,7 +463,7 @@ def search(chk: core.Check) -> None:
 def main(chk: core.Check) -> int:
     chk.rule = RULE
     if not getattr(chk, "no_prove", False):
-        chk.prove()
+        chk.prove(["OptunaVerif.Props.C07", "OptunaVerif.Props.C07Lock"])
     quick = chk.tier == "quick"
     try:
         core.ensure_driver()
@@ -470,6 +471,10 @@ def main(chk: core.Check) -> int:
     except core.DriverBroken as e:
         chk.broke("correspondence", {"driver": str(e)[:600]})
     explore(chk, 600 if quick else 8000)
+    try:
+        c07_lock.correspond(chk, chk.tier)  # the two lock classes call by call against Model/FileLock.lean
+    except core.DriverBroken as e:
+        chk.broke("correspondence", {"driver": str(e)[:600]})
     chk.assumptions += ["O_APPEND writes land at the end of the file; rename / symlink / open(O_EXCL) are atomic (kernel semantics, trusted)",
                         "no takeover of a lock whose holder is alive (the virtual clock only advances while every live thread sleeps)",
                         "JSON validity of a line is decided by Python's json module"]
@@ -478,6 +483,8 @@ def main(chk: core.Check) -> int:
 
 def replay(chk: core.Check, path: str) -> int:
     w = json.load(open(path))["witness"]
+    if w.get("part") == "lock":
+        return c07_lock.replay_case(chk, w)
     out = run_file_case(w["lock"], w["progs"], w["seed"], chk.tmp, plan=sysfi.Plan(chunks=w.get("chunks", 1)), schedule=w.get("schedule"), pct=w.get("pct"),
                         clock=w.get("clock", "sleepers"), grace=5)
     probs = judge(out, len(w["progs"]))
